@@ -1,5 +1,6 @@
 import CuqiVerif.Model.Proto
 import CuqiVerif.Model.C01
+import CuqiVerif.Model.C01_attrs
 open CuqiVerif CuqiVerif.Proto CuqiVerif.C01
 
 /-!
@@ -141,7 +142,101 @@ def splitAtSep : List String → List String → List String × List String
   | "--" :: r, acc => (acc.reverse, r)
   | t :: r, acc => splitAtSep r (t :: acc)
 
+/-! ### attribute-level programs on ONE distribution (`Model/C01_attrs.lean`)
+
+  `attr <name> <attr> ... -- <call> ...`
+
+* `<attr>` = `key=N` (`None`), `key=V<tag>` (a constant), `key=F<id>:a,b` (callable `id` with
+  non-default arguments `a,b`; `F<id>:.` for none)
+* calls: `C;pos;kw` condition and go on with the result, `c;pos;kw` condition, keep the object, `E;pos;kw` `logd`
+
+Output records (`;`-separated, first the initial object):
+`Kind!names!key:state|key:state[!data]`, `EvaluatedDensity!.!<terms>`, `val:<terms>`, `err:Class`, with
+state = `N` | `Vc<tag>` | `Vg<vec>` | `Va<id>(<vec>&..)` | `F<id>(k=<vec>&..~rem,names)` and
+`<terms>` = `+`-separated `pdf[key:state|..]@<vec>` (the family's logpdf with these attribute values at this point).
+-/
+
+/-- symbolic log-density values: a sum of family `logpdf` calls -/
+abbrev SymK := List String
+
+instance : Add SymK := ⟨fun a b => a ++ b⟩
+instance : Zero SymK := ⟨[]⟩
+
+def fmtAVal : AVal Val → String
+  | .const t => "Vc" ++ toString t
+  | .given v => "Vg" ++ fmtVec v
+  | .app f vs => "Va" ++ toString f ++ "(" ++ "&".intercalate (vs.map fmtVec) ++ ")"
+
+def fmtAttr : Attr Val → String
+  | .val a => fmtAVal a
+  | .none => "N"
+  | .fn f sig bound =>
+    "F" ++ toString f ++ "(" ++ "&".intercalate (bound.map (fun kv => kv.1 ++ "=" ++ fmtVec kv.2)) ++ "~"
+      ++ ",".intercalate (remArgs sig bound) ++ ")"
+
+def fmtAttrs (as : List (String × String)) : String :=
+  if as.isEmpty then "." else "|".intercalate (as.map (fun ka => ka.1 ++ ":" ++ ka.2))
+
+def symPdf (vs : List (Name × AVal Val)) (x : Val) : SymK :=
+  ["pdf[" ++ fmtAttrs (vs.map (fun ka => (ka.1, fmtAVal ka.2))) ++ "]@" ++ fmtVec x]
+
+def fmtSym (k : SymK) : String := if k.isEmpty then "0" else "+".intercalate k
+
+def fmtARes : ARes Val SymK → String
+  | .dist d => "Distribution!" ++ fmtNames (acondVars d.attrs ++ [d.name]) ++ "!"
+      ++ fmtAttrs (d.attrs.map (fun ka => (ka.1, fmtAttr ka.2)))
+  | .lik d data => "Likelihood!" ++ fmtNames (acondVars d.attrs) ++ "!"
+      ++ fmtAttrs (d.attrs.map (fun ka => (ka.1, fmtAttr ka.2))) ++ "!" ++ fmtVec data
+  | .eval _ v => "EvaluatedDensity!.!" ++ fmtSym v
+
+def parseAttr (s : String) : Option (Name × Attr Val) :=
+  match s.splitOn "=" with
+  | [k, r] =>
+    if r = "N" then some (k, .none)
+    else if r.startsWith "V" then (r.drop 1).toNat?.map (fun t => (k, .val (.const t)))
+    else if r.startsWith "F" then
+      match (r.drop 1).toString.splitOn ":" with
+      | [id, sig] => do
+        let i ← id.toNat?
+        let sg ← parseNames sig
+        pure (k, .fn i sg [])
+      | _ => none
+    else none
+  | _ => none
+
+def runACalls : ARes Val SymK → List String → List String → Option (List String)
+  | _, [], acc => some acc.reverse
+  | o, c :: cs, acc =>
+    match c.splitOn ";" with
+    | [op, pos, kw] =>
+      match parsePos pos, parseKw kw with
+      | some p, some k =>
+        if op = "C" then
+          match o.cond p k with
+          | .ok o' => runACalls o' cs (fmtARes o' :: acc)
+          | .error e => runACalls o cs (fmtErr e :: acc)
+        else if op = "c" then
+          match o.cond p k with
+          | .ok o' => runACalls o cs (fmtARes o' :: acc)
+          | .error e => runACalls o cs (fmtErr e :: acc)
+        else if op = "E" then
+          match o.logd p k with
+          | .ok r => runACalls o cs (("val:" ++ fmtSym r) :: acc)
+          | .error e => runACalls o cs (fmtErr e :: acc)
+        else none
+      | _, _ => none
+    | _ => none
+
 def step : List String → String
+  | "attr" :: name :: rest =>
+    let (atoks, calls) := splitAtSep rest []
+    match atoks.mapM parseAttr with
+    | none => "bad-op"
+    | some as =>
+      let o : ARes Val SymK := .dist { name := name, attrs := as, pdf := symPdf, c := 0 }
+      match runACalls o calls [fmtARes o] with
+      | some recs => ";".intercalate recs
+      | none => "bad-op"
   | "prog" :: rest =>
     let (dtoks, calls) := splitAtSep rest []
     match dtoks.mapM parseDens with
